@@ -137,6 +137,13 @@ def twins_oracle(rng):
         a.set_params(**{k: v for k, v in gp.items() if not hasattr(v, "get_params")})
         if zoo.all_params(a) != before:
             fails.append(rep(kind, "set_params(get_params)-not-a-noop"))
+        # ... also with the module-valued entries get_params returns: nothing changes, no attribute appears
+        attrs = sorted(vars(a))
+        a.set_params(**gp)
+        if zoo.all_params(a) != before or sorted(vars(a)) != attrs:
+            fails.append(rep(kind, "set_params(get_params)-with-modules-not-a-noop", {"new_attributes": sorted(set(vars(a)) - set(attrs))}))
+            for k in set(vars(a)) - set(attrs):
+                delattr(a, k)
     except Exception as e:
         fails.append(rep(kind, "set_params(get_params)-raises", {"error": f"{type(e).__name__}: {str(e)[:80]}"}))
     # twins: a.set_params(rho=rho2) behaves like b constructed with rho2
@@ -187,18 +194,35 @@ def twins_oracle(rng):
                     fails.append(rep(kind, "set_params-own-twin-differs-from-constructed", {"key": okey}))
         except Exception as e:
             fails.append(rep(kind, "own-twin-raises", {"key": okey, "error": f"{type(e).__name__}: {str(e)[:80]}"}))
-    # rejection
+    # rejection: an error, and the estimator is exactly as before
     try:
+        before = (zoo.all_params(a), sorted(vars(a)))
         a.set_params(no_such_parameter=1.0)
         fails.append(rep(kind, "unknown-name-accepted"))
     except Exception:
-        pass
+        if (zoo.all_params(a), sorted(vars(a))) != before:
+            fails.append(rep(kind, "rejected-set_params-changed-the-estimator", {"call": "set_params(no_such_parameter=1.0)"}))
     if kind in ("Fuzzy", "Hyper", "ART2A", "iCVIFuzzy"):
         try:
-            mk(rho1).set_params(rho=1.5)
-            fails.append(rep(kind, "out-of-range-accepted"))
+            with contextlib.redirect_stdout(io.StringIO()):
+                r = mk(rho1)
+            bad = rng.choice([{"rho": 1.5}, {"rho": -0.25}, {"beta": 7.0}, {"rho": 0.5, "beta": -1.0}])
+            before = zoo.all_params(r)
+            r.set_params(**bad)
+            fails.append(rep(kind, "out-of-range-accepted", {"call": repr(bad)}))
         except Exception:
-            pass
+            if zoo.all_params(r) != before:
+                fails.append(rep(kind, "rejected-set_params-changed-the-estimator", {"call": repr(bad), "before": repr(before)[:200], "after": repr(zoo.all_params(r))[:200]}))
+    if kind == "BARTMAP":
+        try:
+            with contextlib.redirect_stdout(io.StringIO()):
+                r = mk(rho1)
+            before = zoo.all_params(r)
+            r.set_params(eta="high")
+            fails.append(rep(kind, "out-of-range-accepted", {"call": "eta=\"high\""}))
+        except Exception:
+            if zoo.all_params(r) != before:
+                fails.append(rep(kind, "rejected-set_params-changed-the-estimator", {"call": "eta=\"high\""}))
     # clone: unfitted, independent, equal hyper-parameters
     try:
         with contextlib.redirect_stdout(io.StringIO()):
